@@ -8,14 +8,17 @@ package provider
 //@ func (p *Provider) runFullScan
 //@ props C08 C14
 //@ requires p.Sink != nil
-//@ env [provider-and-decoder-share-the-configuration] limitOf[p.Decoder] == p.Config.Limit
+// (the constructor leaves the limit to the provider when entries are filtered: the decoder counts scanned entries)
+//@ env [the-decoder-applies-the-limit-unless-entries-are-filtered] limitOf[p.Decoder] == ite(len(p.Config.ChosenCases) > 0, 0, p.Config.Limit)
 //@ ghost sent0 = sent(p.Sink)
 //@ ghost scanned0 = scannedBy[p.Decoder]
 //@ loop 0 invariant p.Sink == old(p.Sink) && p.Decoder == old(p.Decoder) && p.Config.ChosenCases == old(p.Config.ChosenCases)
 //@ loop 0 invariant [loop-goes-on-only-after-a-good-scan] imp(calls(p.Decoder.Scan) > 0, result_of(p.Decoder.Scan, 1) == nil)
 //@ loop 0 invariant [delivered-at-most-scanned] sent(p.Sink) - sent0 <= scannedBy[p.Decoder] - scanned0
 //@ loop 0 invariant [nothing-skipped-without-a-filter] imp(len(p.Config.ChosenCases) == 0, sent(p.Sink) - sent0 == scannedBy[p.Decoder] - scanned0)
+//@ loop 0 invariant [delivered-count] delivered == sent(p.Sink) - sent0 && limitDelivered == (len(p.Config.ChosenCases) > 0 && p.Config.Limit != 0) && imp(limitDelivered, delivered <= p.Config.Limit)
 //@ ensures [limit-counts-delivered-entries] imp(scanned0 == 0 && calls(p.Decoder.Scan) > 0 && result_of(p.Decoder.Scan, 1) == decoders.ErrAmmoLimit, sent(p.Sink) - sent0 == p.Config.Limit)
+//@ ensures [with-chosencases-the-limit-counts-delivered-entries-too] imp(len(p.Config.ChosenCases) > 0 && p.Config.Limit != 0, sent(p.Sink) - sent0 <= p.Config.Limit && imp(result == nil && !(calls(p.Decoder.Scan) > 0 && result_of(p.Decoder.Scan, 1) != nil), sent(p.Sink) - sent0 == p.Config.Limit))
 //@ loop 0 step [cancellation-is-noticed-in-every-iteration] !iter(done(ctx))
 //@ loop 0 step [one-scan-per-iteration] calls(p.Decoder.Scan) - iter(calls(p.Decoder.Scan)) == 1 && result_of(p.Decoder.Scan, 1) == nil
 //@ loop 0 step [chosen-entry-is-delivered] imp(confutil.IsChosenCase(result_of(p.Decoder.Scan, 0).Tag(), p.Config.ChosenCases), sent(p.Sink) == iter(sent(p.Sink)) + 1)
@@ -23,7 +26,7 @@ package provider
 //@ at send p.Sink assert [the-scanned-entry-itself] value == result_of(p.Decoder.Scan, 0)
 //@ ensures [a-cancelled-run-ends-with-the-plain-cancellation] imp(calls(ctx.Err) > 0 && result_of(ctx.Err, 0) == context.Canceled, result == context.Canceled)
 //@ ensures [bounds-reached-is-a-clean-end] imp(calls(p.Decoder.Scan) > 0 && (result_of(p.Decoder.Scan, 1) == decoders.ErrAmmoLimit || result_of(p.Decoder.Scan, 1) == decoders.ErrPassLimit) && !done(ctx), result == nil)
-//@ ensures [decoder-failure-is-reported] imp(result == nil, calls(p.Decoder.Scan) > 0 && (errors.Is(result_of(p.Decoder.Scan, 1), decoders.ErrAmmoLimit) || errors.Is(result_of(p.Decoder.Scan, 1), decoders.ErrPassLimit)))
+//@ ensures [decoder-failure-is-reported] imp(result == nil, (len(p.Config.ChosenCases) > 0 && p.Config.Limit != 0 && sent(p.Sink) - sent0 == p.Config.Limit) || (calls(p.Decoder.Scan) > 0 && (errors.Is(result_of(p.Decoder.Scan, 1), decoders.ErrAmmoLimit) || errors.Is(result_of(p.Decoder.Scan, 1), decoders.ErrPassLimit))))
 //@ modifies chanSent[p.Sink], ev(scan_ok), scannedBy[p.Decoder]
 
 // Preload: keep exactly the chosen entries, in file order.
